@@ -27,6 +27,7 @@ type GenTrack struct {
 	Codecs      string
 	FirstTime   uint64 // decode time of the first VoD sample (normally 0)
 	Frags       int    // fragments per segment (default 1)
+	CopyFrom    string // Kind "text": bundled directory whose init.mp4 and 1.m4s, 2.m4s, ... are copied and re-timed (one sample per segment)
 }
 
 type GenAsset struct {
@@ -139,6 +140,49 @@ func (g GenAsset) Write(root, bundled string) error {
         <EssentialProperty schemeIdUri="http://dashif.org/guidelines/thumbnail_tile" value="1x1"/>
       </Representation>
     </AdaptationSet>`, tr.SampleDur, tr.Timescale, tr.StartNumber, tr.ID))
+			continue
+		}
+		if tr.Kind == "text" {
+			// stpp track: bundled TTML segments re-timed to SampleDur ticks each (timescale as in the source init)
+			ib, err := os.ReadFile(filepath.Join(bundled, tr.CopyFrom, "init.mp4"))
+			if err != nil {
+				return err
+			}
+			if err := os.WriteFile(filepath.Join(dir, tr.ID, "init.mp4"), ib, 0644); err != nil {
+				return err
+			}
+			for i := range tr.SegSamples {
+				raw, err := os.ReadFile(filepath.Join(bundled, tr.CopyFrom, fmt.Sprintf("%d.m4s", i+1)))
+				if err != nil {
+					return err
+				}
+				f, err := mp4.DecodeFile(bytes.NewReader(raw))
+				if err != nil || len(f.Segments) != 1 || len(f.Segments[0].Fragments) != 1 {
+					return fmt.Errorf("text source segment %d: %v", i+1, err)
+				}
+				seg := f.Segments[0]
+				traf := seg.Fragments[0].Moof.Traf
+				traf.Tfdt.SetBaseMediaDecodeTime(uint64(i) * uint64(tr.SampleDur))
+				if traf.Tfhd.HasDefaultSampleDuration() {
+					traf.Tfhd.DefaultSampleDuration = tr.SampleDur
+				}
+				if traf.Trun.HasSampleDuration() {
+					traf.Trun.Samples[0].Dur = tr.SampleDur
+				}
+				seg.Fragments[0].Moof.Mfhd.SequenceNumber = uint32(i + 1)
+				sw := bits.NewFixedSliceWriter(int(seg.Size()))
+				if err := seg.EncodeSW(sw); err != nil {
+					return err
+				}
+				if err := os.WriteFile(filepath.Join(dir, tr.ID, fmt.Sprintf("%d.m4s", tr.StartNumber+i)), sw.Bytes(), 0644); err != nil {
+					return err
+				}
+			}
+			asXML = append(asXML, fmt.Sprintf(`    <AdaptationSet contentType="text" mimeType="application/mp4" lang="sv" segmentAlignment="true" startWithSAP="1">
+      <Role schemeIdUri="urn:mpeg:dash:role:2011" value="subtitle"/>
+      <SegmentTemplate media="$RepresentationID$/$Number$.m4s" initialization="$RepresentationID$/init.mp4" timescale="%d" duration="%d" startNumber="%d"/>
+      <Representation id="%s" bandwidth="10000" codecs="stpp"/>
+    </AdaptationSet>`, tr.Timescale, tr.SampleDur, tr.StartNumber, tr.ID))
 			continue
 		}
 		initFrom := tr.InitFrom
@@ -256,6 +300,11 @@ func StandardGenAssets() []GenAsset {
 		{Name: "gen/numvar", Tracks: []GenTrack{
 			{ID: "v", Kind: "video", Timescale: 1000, SampleDur: 40, SegSamples: []int{50, 25, 75}},
 			{ID: "a", Kind: "audio", Timescale: 48000, SampleDur: 1024, SegSamples: []int{94, 47, 140}}}},
+		// 29.97-style 2.002 s x 4 (loop 8.008 s, not a whole number of seconds) with an stpp track re-timed to 2002 ms
+		{Name: "gen/ttml", Tracks: []GenTrack{
+			{ID: "v", Kind: "video", Timescale: 30000, SampleDur: 1001, SegSamples: rep(60, 4)},
+			{ID: "a", Kind: "audio", Timescale: 48000, SampleDur: 1024, SegSamples: []int{94, 94, 94, 93}},
+			{ID: "sub", Kind: "text", Timescale: 1000, SampleDur: 2002, SegSamples: rep(1, 4), CopyFrom: "testpic_2s/imsc1_txt_sv"}}},
 		// 3.2 s segments at 15360 (non-whole-second boundaries), $Number$, 30000/1001-free
 		{Name: "gen/s32", Tracks: []GenTrack{
 			{ID: "v", Kind: "video", Timescale: 15360, SampleDur: 512, SegSamples: rep(96, 4)},
